@@ -82,12 +82,10 @@ FileOrderOK(D, its) ==
   \A i, j \in DOMAIN D :
     (i < j /\ D[i][3] \in 8..14 /\ D[j][3] \in 8..14 /\ D[i][5] = D[j][5] /\ D[i][2] # D[j][2]) => D[i][2] < D[j][2]
 
-PlayFullFails(ev, sg, c) ==
+\* (D, H, its, li are parameters, not LET definitions: TLC evaluates an argument once, but re-evaluates a LET-bound value
+\*  every time it is used under a quantifier or function constructor)
+PFF(ev, sg, c, D, H, its, li) ==
   LET calls == ev.calls
-      D     == EntriesOf(calls, "e")
-      H     == EntriesOf(calls, "h")
-      its   == Gated(sg, sg.its, c.enabled, c.solo)
-      li    == LoopInfo(sg)
       looping == c.loopEn /\ li.valid /\ li.any
       wholeLoop == c.loopEn /\ ~looping            \* invalid or absent markers: the whole song is the loop body
       n     == PassCount(c.loopN)
@@ -145,6 +143,8 @@ PlayFullFails(ev, sg, c) ==
        Lbl(~c.hooks \/ ~c.loopEn \/ nLE = (IF looping /\ li.hasE THEN n + 1 ELSE n), "loopend-hook-count") \cup
        Lbl(~c.hooks \/ ~c.loopEn \/ nLS = n, "loopstart-hook-count") \cup
        Lbl(~c.hooks \/ c.loopEn \/ nLE = 1, "songend-hook")
+
+PlayFullFails(ev, sg, c) == PFF(ev, sg, c, EntriesOf(ev.calls, "e"), EntriesOf(ev.calls, "h"), Gated(sg, sg.its, c.enabled, c.solo), LoopInfo(sg))
 
 \* timing of a play in "exact" mode: every entry is stamped with the reference time of some matching item (keys carry t)
 \* timing in "steps" mode: delivered in the call whose interval covers the reference time
@@ -293,6 +293,14 @@ StepCfg(ev) ==
               [] OTHER -> cfg
   /\ UNCHANGED <<song, pos, exec, fails, drift>>
   /\ cnt' = [cnt EXCEPT !.steps = @ + 1]
+\* index of the first difference of two sequences (0: equal).  A recursive operator on purpose: its arguments are values;
+\* a CHOOSE with a nested quantifier over LET-bound logs made TLC recompute the model run for every index pair
+RECURSIVE FirstDiff(_, _, _)
+FirstDiff(a, b, i) == IF i > Len(a) \/ i > Len(b) THEN (IF Len(a) = Len(b) THEN 0 ELSE i)
+                      ELSE IF a[i] # b[i] THEN i ELSE FirstDiff(a, b, i + 1)
+ModelVsReal(mr, real, hooks) ==
+  IF mr.trunc # 0 THEN 0
+  ELSE FirstDiff(StripLog(SelectSeq(AllLog(mr.calls), LAMBDA x : x[1] = "e" \/ hooks)), real, 1)
 \* a runaway play (log cut at 6000 entries, or thousands of calls): everything derived from the log is quadratic in its
 \* length for TLC, so it is judged from the scalars only: a play that was expected to end did not
 BigPlay(ev) == ev.trunc = 1 \/ ev.ncalls > 1500
@@ -318,21 +326,20 @@ StepPlayNormal(ev) ==
       ungated == Ungated(cfg)
       afterSeek == pos.stgt >= 0
       doRef == IOEnv.SEQ_REFINE = "1" /\ (full \/ (afterSeek /\ ev.trunc = 0)) /\ ev.atend = 1 /\ ev.steps = <<>> /\ ungated /\ (cfg.loopEn => cfg.loopN >= 0) /\ Len(D) <= 150
-      strip(x) == IF x[1] = "e" THEN <<"e", x[2], x[3], x[4], x[5], x[6]>> ELSE <<"h", x[2], x[3]>>
-      realLog == [i \in DOMAIN SelectSeq(AllLog(ev.calls), LAMBDA x : x[1] \in {"e", "h"}) |-> strip(SelectSeq(AllLog(ev.calls), LAMBDA x : x[1] \in {"e", "h"})[i])]
+      realLog == StripLog(AllLog(ev.calls))
       mrun == IF ~doRef THEN [calls |-> <<>>, trunc |-> 1]
               ELSE IF afterSeek THEN PlayAfterSeekModel(song, cfg.loopEn, cfg.loopN, pos.stgt, 500000 \div cfg.rate)
               ELSE PlayModel(song, cfg.loopEn, cfg.loopN)
-      mlog0 == SelectSeq(AllLog(mrun.calls), LAMBDA x : x[1] = "e" \/ cfg.hooks)
-      modelLog == [i \in DOMAIN mlog0 |-> strip(mlog0[i])]
-      dr == doRef /\ mrun.trunc = 0 /\ modelLog # realLog
+      \* 0 = the logs agree (or nothing was compared); operators with value arguments, see FirstDiff
+      fd == IF doRef THEN ModelVsReal(mrun, realLog, cfg.hooks) ELSE 0
+      dr == fd # 0
       det == ToString(<<"loop", li, "n", cfg.loopN, "hooks", EntriesOf(ev.calls, "h"), "nLS", Count(EntriesOf(ev.calls, "h"), LAMBDA x : x[3] = 1), "times", [i \in DOMAIN D |-> D[i][2]]>>)
       f8 == IF pos.moved /\ ~cfg.loopEn /\ ev.trunc = 0 /\ ev.steps = <<>> THEN PlayAfterSeekFails(ev, song, cfg, pos.t) ELSE {}
   IN /\ fails' = AddFails(Tag("C07", { x \in f7 \cup fw : ~is9(x) }, ev, "") \cup Tag("C09", { x \in f7 : is9(x) }, ev, det)
                           \cup Tag("C08", f8, ev, ToString(<<"from", pos.t>>)))
      /\ pos' = [pos EXCEPT !.moved = TRUE, !.stgt = -1, !.t = IF ev.calls = <<>> THEN @ ELSE ev.calls[Len(ev.calls)][2]]
      /\ drift' = IF dr /\ Len(drift) < 4 THEN Append(drift, [l |-> l, x |-> exec, e |-> IF afterSeek THEN "PlayTicks-after-seek" ELSE "PlayTicks",
-                      d |-> ToString(<<"first-difference-at", CHOOSE i \in 1..(Len(modelLog) + 1) : (i > Len(modelLog) \/ i > Len(realLog) \/ modelLog[i] # realLog[i]) /\ \A j \in 1..(i - 1) : j <= Len(realLog) /\ modelLog[j] = realLog[j]>>)]) ELSE drift
+                      d |-> ToString(<<"first-difference-at", fd>>)]) ELSE drift
      /\ UNCHANGED <<song, cfg, exec>>
      /\ cnt' = [cnt EXCEPT !.steps = @ + 1, !.plays = @ + 1, !.events = @ + Len(D),
                            !.sameTickGroups = @ + Cardinality({ i \in 2..Len(D) : D[i][2] = D[i - 1][2] /\ D[i][5] = D[i - 1][5] }),
